@@ -285,10 +285,14 @@ class ScalarGen:
         from .world import arith
 
         lo, hi = -(1 << 31), (1 << 31) - 1
+        def runtime_leaf():
+            names = [n for n in self.c.sigs if n not in self.c.consts] or self.c.sigs
+            return ["var", self.ch.pick(names)]
+
         if e[0] == "neg":
             v = self._cval(e[1])
             if v is not None and not (lo <= -v <= hi):
-                return ["neg", self.sig_leaf()]
+                return ["neg", runtime_leaf()]
             return e
         if e[0] != "bin" or e[1] not in _PYFOLD:
             return e
@@ -306,7 +310,7 @@ class ScalarGen:
             ok = False
         if ok:
             return e
-        return ["bin", e[1], self.sig_leaf(), e[3]]
+        return ["bin", e[1], runtime_leaf(), e[3]]
 
     def _expr_raw(self, depth: int):
         ch, f = self.ch, self.f
@@ -535,3 +539,96 @@ def loader_program(ch: Chooser):
         op = ch.pick(["<", ">", "<=", ">="])
         stmts.append(["enable", f"load{i + 1}", ["bin", op, [q, ["var", f"diff{i + 1}"]], ["lit", ch.rint(-2, 2), 10]]])
     return stmts, n
+
+
+# ------------------------------------------------------------------------------ claimed domain
+def in_claimed_domain(stmts) -> bool:
+    """True if no constant-only sub-expression of the program leaves the domain where the
+    compiler's folders and the 32-bit run-time arithmetic agree (C11 is not claimed).  The
+    generators only build such programs; the structural shrinker must not leave the domain either,
+    or a minimised case would show a different (unclaimed) disagreement than the one it shrinks."""
+    from .world import arith
+
+    lo, hi = -(1 << 31), (1 << 31) - 1
+    consts: dict = {}
+    ok = [True]
+
+    def cval(e):
+        if not isinstance(e, list) or not e or not isinstance(e[0], str):
+            return None
+        k = e[0]
+        if k == "lit":
+            return e[1]
+        if k == "var":
+            return consts.get(e[1])
+        if k in ("siglit", "siglitt"):
+            return cval(e[2])
+        if k in ("proj", "projt"):
+            return cval(e[1])
+        if k == "neg":
+            v = cval(e[1])
+            if v is not None and not (lo <= -v <= hi):
+                ok[0] = False
+            return None if v is None else -v
+        if k == "bin":
+            a, b = cval(e[2]), cval(e[3])
+            if a is None or b is None:
+                return None
+            if e[1] not in _PYFOLD:
+                return None
+            good = lo <= a <= hi and lo <= b <= hi
+            folded = None
+            if good:
+                try:
+                    folded = _PYFOLD[e[1]](a, b)
+                    good = folded == arith("^" if e[1] == "**" else e[1], a, b)
+                except (ZeroDivisionError, OverflowError, ValueError):
+                    good = False
+            if good and e[1] in ("**", "<<", ">>") and not (0 <= b <= 31):
+                good = False
+            if not good:
+                ok[0] = False
+                return None
+            return folded
+        for x in e[1:]:
+            if isinstance(x, list):
+                cval(x)
+        return None
+
+    def walk(e):
+        if isinstance(e, list) and e:
+            if isinstance(e[0], str) and e[0] in ("bin", "neg", "proj", "projt", "siglit", "siglitt", "sel",
+                                                   "not", "call", "blit", "bsel", "any", "all"):
+                cval(e)
+                for x in e[1:]:
+                    if isinstance(x, list):
+                        walk(x)
+            else:
+                for x in e:
+                    if isinstance(x, list):
+                        walk(x)
+
+    def block(sts):
+        for s_ in sts:
+            if s_[0] == "decl" and s_[1] in ("int", "Signal"):
+                walk(s_[3])
+                v = cval(s_[3])
+                # `Signal a = 5;` / `Signal a = ("t", 5);` declare circuit inputs: the compiler
+                # never folds through them
+                declared_input = s_[1] == "Signal" and s_[3][0] in ("lit", "siglit", "siglitt")
+                if v is not None and not declared_input:
+                    consts[s_[2]] = v
+            elif s_[0] == "for":
+                block(s_[3])
+            elif s_[0] == "func":
+                block(s_[3])
+                if s_[4] is not None:
+                    walk(s_[4])
+            else:
+                walk(s_[1:])
+
+    try:
+        block(stmts)
+    except Exception:
+        return True
+    return ok[0]
